@@ -1,6 +1,6 @@
 """C12: activation state machine -- one finalization per demand-active, input gated.
 Case: a history over the 11-letter alphabet of server messages with an input attempt after every step."""
-import itertools
+import itertools, os, subprocess
 from session import *
 
 RULE = ("histories over {demand-active, synchronize, control-cooperate, control-granted, control-other, font-map, "
@@ -8,10 +8,15 @@ RULE = ("histories over {demand-active, synchronize, control-cooperate, control-
         "length <= 3 plus 2000 random ones of length <= 12; thorough = every history of length <= 5 plus 20000 random of "
         "length <= 16; an input attempt (pointer/key, strict and lenient write, rotating) after every step and before the "
         "first.  Each outcome is judged by an independent reference automaton and a strict decoder of the emitted PDUs.  "
+        "Plus (both tiers) histories whose letters carry RANDOM parameters (share ids, capability-set lists with known / "
+        "unknown / truncated / empty sets, control actions, pduType2 values and bodies, fast-path codes, rectangles, server "
+        "identifiers): their frames are produced by the EXTRACTED Coq reference encoder RefSession.enc_smsg (driver op "
+        "`refenc`), compared byte for byte with the python reference encoders of gen/rdp.py, and fed to the implementation.  "
         "Non-trivial = the history contains at least one demand-active; distinct = distinct histories.")
 TRUSTED_BASE = ["Coq 8.16.1 kernel", "hand-written models coq/Msg.v (message interpreter), coq/LayoutsGlobal.v (PDU layouts), coq/Global.v (state machine) tied to /repo by this correspondence run",
                 "extraction (ExtrOcamlBasic only) + ocaml/session/driver.ml", "Rust harness/src/session.rs; hooks x224::verif_new, mcs::verif_connected, RdpClient::verif_new",
-                "gen/rdp.py reference encoders and gen/session.py reference automaton / strict decoder (the oracle)"]
+                "gen/rdp.py reference encoders and gen/session.py reference automaton / strict decoder (the oracle)",
+                "coq/RefSession.v reference encoder / automaton (spec of the history theorems), tied to gen/rdp.py byte for byte on generated letters at every run (op refenc) and by the golden frames of coq/C12_ref_examples.v"]
 ASSUMPTIONS = ["the transport accepts every write (C14 covers short writes) and delivers whole frames (C13 covers fragmentation)",
                "the server PDUs of the alphabet are the well-formed encodings produced by gen/rdp.py"]
 
@@ -25,6 +30,141 @@ def history_case(letters, rng=None, k0=0):
         steps.append(R(letter_frame(l, sid, rng)))
         steps.append(INPUTS[(k0 + i + 1) % len(INPUTS)])
     return case(steps), ("hist", tuple(letters), k0)
+
+
+# ------------------------------------------------------------------ letters with random parameters, encoded by the Coq reference encoder
+ROOT = os.path.dirname(os.path.dirname(os.path.abspath(__file__)))
+REF_DRIVER = os.path.join(ROOT, "ocaml", "session", "driver")
+
+def _split_cap(c):
+    t, l = struct.unpack("<HH", c[:4]); return (t, c[4:])
+CAP_POOL = [_split_cap(c) for c in (GENERAL_CAP, BITMAP_CAP, POINTER_CAP, INPUT_CAP, VC_CAP, VC_CAP_SHORT, SHARE_CAP, FONT_CAP,
+                                    UNKNOWN_CAP, BAD_GENERAL_CAP)]
+T2_OTHER = [0x02, 0x1b, 0x1c, 0x21, 0x22, 0x23, 0x24, 0x25, 0x26, 0x27, 0x29, 0x2b, 0x2c, 0x2d, 0x2e, 0x30, 0x31, 0x32, 0x36,
+            0x37, 0x38, 0x00, 0x01, 0x13, 0x15, 0x1e, 0x20, 0x2a, 0x39, 0x7f, 0x80, 0xff]     # anything but 0x14 0x1f 0x28 0x2f
+CTRL_OTHER = [0, 1, 3, 5, 6, 0x0104, 0x0204, 0x8004, 0xff04, 0x0400, 0x0302, 0x0102, 0x8002, 0x0200, 0xffff]
+FP_OTHER = [0, 2, 3, 4, 5, 6, 7, 8, 9, 10, 11, 12, 13, 14, 15]
+
+def rand_ids(rng, fixed_source=False):
+    return {"ini": rng.choice([1002, 1004, 1001, 65535, rng.randrange(1001, 65536)]), "chan": 1003,
+            "src": 1002 if (fixed_source or rng.random() < 0.5) else rng.randrange(65536),
+            "share": rng.choice([SHARE, 0, 0xffffffff, rng.randrange(1 << 32)]), "stream": rng.choice([1, 1, 2, 4, 0, 255]),
+            "descr": bytes(rng.randrange(256) for _ in range(rng.choice([0, 1, 4, 4, 9]))),
+            "target": rng.choice([UID, 1002, 0, 0xffff, rng.randrange(65536)]),
+            "grant": rng.choice([0, UID, rng.randrange(65536)]), "control": rng.choice([0, 1002, rng.randrange(1 << 32)]),
+            "sec": rng.randrange(4), "long": rng.random() < 0.3}
+
+def rand_rect(rng):
+    flags = rng.choice([0, 0, 1, 0x401, 0x400, 0x20])
+    data = bytes(rng.randrange(256) for _ in range(rng.choice([0, 1, 2, 8, 17])))
+    return [rng.randrange(65536) for _ in range(4)] + [rng.randrange(1, 64), rng.randrange(1, 64), rng.choice([8, 15, 16, 24, 32])] + \
+           [flags, rng.randrange(65536), rng.randrange(65536), data]
+
+def rand_letter(rng, name):
+    """-> (letter token for `refenc`, share id | None, number of rectangles)"""
+    if name == "DA":
+        sid = rng.choice([SHARE, 0, 0xffffffff, rng.randrange(1 << 32)])
+        caps = []
+        for _ in range(rng.choice([0, 1, 3, 3, 5, 8])):
+            t, b = rng.choice(CAP_POOL)
+            r = rng.random()
+            if r < 0.15: b = b[:rng.randrange(len(b) + 1)]                      # truncated body
+            elif r < 0.25: t = rng.choice([0, 6, 11, 31, 0x1234, 0xffff])        # a type outside the client's enum
+            elif r < 0.35: b = bytes(rng.randrange(256) for _ in range(rng.randrange(12)))
+            caps.append((t, b))
+        return "DA:%d:%s" % (sid, ",".join("%d.%s" % (t, b.hex()) for t, b in caps) or "-"), sid, 0, caps
+    if name == "CTRLOTHER": a = rng.choice(CTRL_OTHER); return "CTRL:%d" % a, None, 0, a
+    if name == "SEI": c = rng.choice([0, 0x10c, 0xffffffff, rng.randrange(1 << 32)]); return "SEI:%d" % c, None, 0, c
+    if name == "UNK":
+        t = rng.choice(T2_OTHER); b = bytes(rng.randrange(256) for _ in range(rng.choice([0, 4, 8, 12, 3])))
+        return "UNK:%d:%s" % (t, b.hex()), None, 0, (t, b)
+    if name == "FPBMP":
+        rs = [rand_rect(rng) for _ in range(rng.choice([0, 1, 2, 2, 3]))]
+        return "FPBMP:" + ("/".join(".".join(str(x) for x in r[:10]) + "." + r[10].hex() for r in rs) or "-"), None, len(rs), rs
+    if name == "FPOTHER":
+        c = rng.choice(FP_OTHER); b = bytes(rng.randrange(256) for _ in range(rng.choice([0, 0, 2, 4, 11])))
+        return "FPOTHER:%d:%s" % (c, b.hex()), None, 0, (c, b)
+    return {"SYNC": "SYNC", "COOP": "COOP", "GRANTED": "GRANTED", "FONTMAP": "FONTMAP", "DEACT": "DEACT"}[name], None, 0, None
+
+def py_frame(name, ids, par):
+    """the same letter through the python reference encoders (gen/rdp.py)"""
+    kw = {"initiator": ids["ini"], "chan": ids["chan"]}
+    def data(t2, payload):
+        return slow_frame(share_control(0x17, share_data(t2, payload, share_id=ids["share"], stream=ids["stream"]), source=ids["src"]), **kw)
+    if name == "DA":        # PDUSource 1002 and sessionId 0 are fixed in gen/rdp.py
+        return slow_frame(demand_active(share_id=par[0], caps=[capset(t, b) for t, b in par[1]], source=ids["descr"]), **kw)
+    if name == "DEACT": return slow_frame(deactivate_all(share_id=ids["share"], source=ids["descr"]), **kw)
+    named = ids["src"] == 1002 and ids["stream"] == 1        # the named helpers of gen/rdp.py fix PDUSource 1002 and STREAM_LOW
+    if name == "SYNC":
+        return slow_frame(synchronize(ids["target"], share_id=ids["share"]), **kw) if named else data(0x1f, le16(1) + le16(ids["target"]))
+    if name in ("COOP", "GRANTED", "CTRLOTHER"):
+        a = {"COOP": 4, "GRANTED": 2}.get(name, par)
+        return slow_frame(control(a, ids["grant"], ids["control"], share_id=ids["share"]), **kw) if named \
+               else data(0x14, le16(a) + le16(ids["grant"]) + le32(ids["control"]))
+    if name == "FONTMAP":
+        return slow_frame(font_map(share_id=ids["share"]), **kw) if named else data(0x28, le16(0) + le16(0) + le16(3) + le16(4))
+    if name == "SEI":
+        return slow_frame(set_error_info(par, share_id=ids["share"]), **kw) if named else data(0x2f, le32(par))
+    if name == "UNK":
+        return slow_frame(unknown_data(par[0], par[1], share_id=ids["share"]), **kw) if named else data(par[0], par[1])
+    if name == "FPBMP":
+        rects = [bitmap_rect(r[0], r[1], r[2], r[3], r[4], r[5], r[6], r[7], r[10],
+                             hdr=le16(0) + le16(len(r[10])) + le16(r[8]) + le16(r[9])) for r in par]
+        return fp_frame(fp_bitmap(rects), action=ids["sec"] << 6, long=ids["long"])
+    if name == "FPOTHER": return fp_frame(fp_update(par[0], par[1]), action=ids["sec"] << 6, long=ids["long"])
+    raise ValueError(name)
+
+def coq_frames(lines):
+    """run `refenc` lines through the extracted Coq reference encoder"""
+    if not lines: return []
+    p = subprocess.run([REF_DRIVER], input=("\n".join(lines) + "\n").encode(), stdout=subprocess.PIPE, stderr=subprocess.DEVNULL, timeout=600)
+    out = p.stdout.decode().split("\n")
+    if out and out[-1] == "": out.pop()
+    return out
+
+def param_histories(rng, n, maxlen):
+    """n histories whose letters carry random parameters; frames = the Coq reference encoder's, cross-checked with python's"""
+    order = ["DA", "SYNC", "COOP", "GRANTED", "FONTMAP"]
+    plan = []; req = []
+    for _ in range(n):
+        h = []; pos = 0
+        for _ in range(rng.randrange(1, maxlen + 1)):
+            r = rng.random()
+            if r < 0.5 and pos < 5: l = order[pos]
+            elif r < 0.58: l = "DEACT"
+            elif r < 0.7 and pos == 5: l = "FPBMP"
+            else: l = rng.choice(LETTERS)
+            if pos < 5 and l == order[pos]: pos += 1
+            elif pos == 5 and l == "DEACT": pos = 0
+            ids = rand_ids(rng, fixed_source=l in ("DA", "DEACT"))
+            tok, sid, nrect, par = rand_letter(rng, l)
+            if l in ("FPBMP", "FPOTHER"):        # the short form carries at most 125 bytes of updates
+                body = py_frame(l, dict(ids, long=True), par)[3:]
+                if len(body) + 2 > 127: ids["long"] = True
+            if l == "DA": par = (sid, par)
+            h.append((l, sid, nrect, ids, par))
+            req.append("refenc %d %d %d %d %d %s 0 %d %d %d %d %d %s" % (ids["ini"], ids["chan"], ids["src"], ids["share"], ids["stream"], hx(ids["descr"]),
+                       ids["target"], ids["grant"], ids["control"], ids["sec"], 1 if ids["long"] else 0, tok))
+        plan.append(h)
+    try:
+        got = coq_frames(req)
+    except Exception as e:
+        got = []
+    cases = []; k = 0
+    for h in plan:
+        steps = [INPUTS[k % len(INPUTS)]]; bad = None; spec = []
+        for j, (l, sid, nrect, ids, par) in enumerate(h):
+            want = py_frame(l, ids, par)
+            have = got[k] if k < len(got) else "missing"
+            k += 1
+            if have != hx(want) and bad is None:
+                bad = "letter %d (%s): Coq reference encoder (RefSession.enc_smsg) gives %s, python reference encoder gives %s" % (j, req[k - 1], have[:400], hx(want)[:400])
+            try: frame = bytes.fromhex(have) if have not in ("-", "missing") else want
+            except ValueError: frame = want
+            steps.append(R(frame)); steps.append(INPUTS[(k + j) % len(INPUTS)])
+            spec.append((l, sid, nrect))
+        cases.append((case(steps), ("hist", tuple(spec), None, bad)))
+    return cases
 
 def gen_cases(tier, rng):
     quick = tier == "quick"
@@ -78,6 +218,8 @@ def gen_cases(tier, rng):
                 steps += [R(slow_frame(body)), INPUTS[5], R(letter_frame("FPBMP")), INPUTS[6]]
                 letter = "DEACT" if "DEACT" in batch else "SEI"
                 cases.append((case(steps), ("hist", tuple(act + [letter, "FPBMP"]), None)))
+    # letters with random parameters through the extracted Coq reference encoder (cross-checked with gen/rdp.py)
+    cases += param_histories(rng, 1500 if quick else 15000, 12 if quick else 16)
     return cases
 
 def classify(line, out):
@@ -98,6 +240,7 @@ def oracle(line, out, expect):
     for s in steps:
         if s[0] in ("panic", "spin", "crashed"): return "crashed: " + s[0]
     if expect is None: return None
+    if len(expect) > 3 and expect[3]: return "reference encoders disagree: " + expect[3]
     letters, k0 = expect[1], expect[2]
     toks = line.split()[6:]
     if len(steps) != len(toks): return "run stopped early: %d of %d steps" % (len(steps), len(toks))
@@ -114,8 +257,14 @@ def oracle(line, out, expect):
             return "step %d: emitted bytes do not decode: %r" % (i, e)
         if tok.startswith("R:"):
             l = letters[li]; li += 1
-            if l == "DA": sid = (sid + 0x10001) & 0xffffffff
+            nrect = 2
+            if isinstance(l, tuple):            # (letter, share id of a demand-active, rectangles of a fast-path bitmap)
+                l, lsid, nrect = l
+                if l == "DA": sid = lsid
+            elif l == "DA": sid = (sid + 0x10001) & 0xffffffff
+            inwin = ref.window()
             exp, nexp = ref.feed(l, sid)
+            if l == "FPBMP": nexp = nrect if inwin else 0
             got = []
             for f in frames:
                 if f[0] == "confirm": got.append(("confirm", f[1]))
